@@ -18,4 +18,4 @@ def generate_core(rng, tier):
 def generate(rng, tier):
     """the component-level cases, then the clause seen through the whole request/reply pipeline"""
     import pipeline, focus
-    return generate_core(rng, tier) + pipeline.guided_cases(rng, 400 if tier == 'thorough' else 30, pipeline.exchange_history, 'xchg')
+    return generate_core(rng, tier) + focus.loop_cases(rng, 96 if tier == 'thorough' else 24) + pipeline.guided_cases(rng, 400 if tier == 'thorough' else 30, pipeline.exchange_history, 'xchg')
